@@ -44,6 +44,8 @@ structure ConnInfo where
   ended : Option (Nat × String)      -- t, "eof" | "rst"
   endSeq : Option Nat                -- seq of that event
   remoteClosed : Option Nat          -- seq of r.close / r.reset
+  remoteFin : Bool := false          -- the remote only half-closed (FIN): everything it sent before is read by corebgp, and it
+                                     -- keeps reading what corebgp writes until corebgp closes
 deriving Inhabited
 
 def ConnInfo.inbound (c : ConnInfo) : Bytes := c.sends.flatMap (·.2.2)
@@ -60,7 +62,8 @@ def connsOf (evs : List Ev) (peer : String) : List ConnInfo :=
       recvs := (mine.filter (·.ev == "r.recv")).map fun e => (e.seq, e.t, hexArg (e.arg 1)),
       ended := (mine.find? fun e => e.ev == "r.eof" || e.ev == "r.rst").map fun e => (e.t, (e.ev.drop 2).toString),
       endSeq := (mine.find? fun e => e.ev == "r.eof" || e.ev == "r.rst").map (·.seq),
-      remoteClosed := (mine.find? fun e => e.ev == "r.close" || e.ev == "r.reset").map (·.seq) }
+      remoteClosed := (mine.find? fun e => e.ev == "r.close" || e.ev == "r.reset").map (·.seq),
+      remoteFin := mine.any fun e => e.ev == "r.close" && e.arg 1 == "fin" }
 
 structure CbCall where
   name : String
@@ -253,7 +256,9 @@ def checkConn (cfg : SessCfg) (c : ConnInfo) (cbs : List CbCall) (allowLocal : B
     if first.1 != 1 then
       return ⟨fails ++ ["C14 the first message on a connection must be an OPEN"], 0, .closed, false, none⟩
     let (inMsgs, inErr) := readAll c.inbound
-    let lenient := c.remoteClosed.isSome
+    -- a remote that closed or reset the connection may not have seen what corebgp wrote last, and unread input may be
+    -- lost to the reset; after a mere FIN neither can happen
+    let lenient := c.remoteClosed.isSome && !c.remoteFin
     let inputs : List Input := inMsgs.map .msg ++
       (match inErr with
        | .notif n out => [Input.readerErr (.notif n out)]
@@ -282,7 +287,7 @@ def checkConn (cfg : SessCfg) (c : ConnInfo) (cbs : List CbCall) (allowLocal : B
         consumed := consumed + 1
       | .error why =>
         -- not reproduced: admissible only if what was observed instead is an external ending here
-        match externalEnding st c.remoteClosed.isSome allowLocal with
+        match externalEnding st lenient allowLocal with
         | none => stop := true
         | some _ =>
           fails := fails ++ [s!"L1 input #{consumed + 1} ({reprStr inp |>.take 60}) in {reprStr st.phase}: {why}"]
